@@ -86,6 +86,9 @@ pub fn check(tier: Tier) -> Check {
             tier.pick(15, 300),
         ));
     }
+    // two losses in a row: the session is resumed on a second and then on a third connection
+    parts.push(Part::new("C17/resume", json!({"depth": tier.pick(4, 5), "expiry": 1000, "secs_ago": 10, "twice": true}), 0, tier.pick(15, 300)));
+    parts.push(Part::new("C17/resume", json!({"depth": tier.pick(4, 5), "expiry": 1000, "secs_ago": 10, "twice": true, "r": 65535}), 0, tier.pick(15, 300)));
     // identifier flavour: the counters start next to a boundary of their encodings (DESIGN 4)
     for ids in [[65534u64, 1u64], [255, 127]] {
         parts.push(Part::new(
@@ -241,74 +244,86 @@ pub fn scenario_for(prop: &'static str, name: &str, params: &Value) -> Scenario 
             let i = chz.choose(e.len());
             sys.apply(e[i].clone());
         }
-        // connection loss - or (params.end) the user's DISCONNECT / the server's graceful one: the
-        // session survives those just the same, and unfinished handshakes are re-sent on a resume
-        if !sys.dead {
-            match params["end"].as_str().unwrap_or("eof") {
-                "disconnect" => sys.apply(Ev::Start(OpSpec::Disconnect(DisconnectSpec::default()))),
-                "server" => sys.apply(Ev::Deliver(SPacket::Disconnect { reason: 0, props: vec![], form: 1 })),
-                "error" => sys.apply(Ev::ReadErr),
-                _ => sys.apply(Ev::Eof),
+        // (params.twice: the resumed connection is lost as well and the session resumed a second time -
+        // what was acknowledged on the second connection is not re-sent on the third)
+        let rounds = if params["twice"].as_bool().unwrap_or(false) { 2 } else { 1 };
+        for round in 0..rounds {
+            if sys.dead || (round > 0 && sys.m.ctx != CtxSt::Running) {
+                break;
             }
-        }
-        if !sys.dead {
-            let expired = expiry == 0 || (expiry != u32::MAX && secs_ago >= expiry as u64);
-            sys.events.push(format!("MarkDisconnected({}s ago); Reconnect", secs_ago));
-            sys.classes.push("Reconnect".into());
-            sys.w.cmd(CtxCmd::MarkDisconnected(secs_ago));
-            sys.w.new_wire();
-            sys.m.new_wire();
-            // (params.r2: the new connection's CONNACK announces a small Receive Maximum - the unfinished
-            // handshakes are all re-sent nevertheless: they were begun under the old connection's terms)
-            let mut cprops2 = cprops.clone();
-            if let Some(r2) = params["r2"].as_u64() {
-                cprops2.retain(|p| p.id != P_RECEIVE_MAXIMUM);
-                cprops2.push(Prop::u16(P_RECEIVE_MAXIMUM, r2 as u16));
-            }
-            open(&mut sys, !expired, cprops2);
+            // connection loss - or (params.end) the user's DISCONNECT / the server's graceful one: the
+            // session survives those just the same, and unfinished handshakes are re-sent on a resume
             if !sys.dead {
-                sys.events.push("Run(resume)".into());
-                sys.classes.push(format!("Resume(expired={})", expired));
-                sys.m.resume(expired);
-                sys.w.cmd(CtxCmd::Run);
-                sys.sync();
-            }
-            // the acknowledgements arrive on the new connection, in every order
-            for _ in 0..3 {
-                if sys.dead {
-                    break;
+                match params["end"].as_str().unwrap_or("eof") {
+                    "disconnect" => sys.apply(Ev::Start(OpSpec::Disconnect(DisconnectSpec::default()))),
+                    "server" => sys.apply(Ev::Deliver(SPacket::Disconnect { reason: 0, props: vec![], form: 1 })),
+                    "error" => sys.apply(Ev::ReadErr),
+                    _ => sys.apply(Ev::Eof),
                 }
-                // only the publish handshakes continue on the new connection
-                let e: Vec<Ev> = (0..sys.m.ops.len())
-                    .filter(|&i| matches!(sys.m.ops[i].spec, OpSpec::Publish(_)))
-                    .filter_map(|i| sys.ack_for(i, 0, "").map(Ev::Deliver))
-                    .collect();
-                if e.is_empty() {
-                    break;
-                }
-                let i = chz.choose(e.len());
-                sys.apply(e[i].clone());
             }
-            // new traffic works (with a small Receive Maximum on the new connection the quota after a
-            // resume is outside C10 and C17: a QoS 0 publish then)
             if !sys.dead {
-                let q = if params["r2"].as_u64().is_some() { 0 } else { 1 };
-                sys.apply(Ev::Start(OpSpec::Publish(PublishSpec::simple(q, "t/new", b"new"))));
-            }
-            // after an expired session nothing of the old one is left: a new ping is answered by the
-            // first PINGRESP of the new connection, a new subscribe by its SUBACK
-            if expired && params["fresh"].as_bool().unwrap_or(false) && !sys.dead {
-                sys.apply(Ev::Start(OpSpec::Ping));
-                sys.apply(Ev::Deliver(SPacket::Pingresp));
-                sys.apply(Ev::Start(OpSpec::Subscribe(SubscribeSpec::simple("s/fresh"))));
-                let o = sys.m.ops.len() - 1;
+                let expired = expiry == 0 || (expiry != u32::MAX && secs_ago >= expiry as u64);
+                sys.events.push(format!("MarkDisconnected({}s ago); Reconnect", secs_ago));
+                sys.classes.push("Reconnect".into());
+                sys.w.cmd(CtxCmd::MarkDisconnected(secs_ago));
+                sys.w.new_wire();
+                sys.m.new_wire();
+                // (params.r2: the new connection's CONNACK announces a small Receive Maximum - the unfinished
+                // handshakes are all re-sent nevertheless: they were begun under the old connection's terms)
+                let mut cprops2 = cprops.clone();
+                if let Some(r2) = params["r2"].as_u64() {
+                    cprops2.retain(|p| p.id != P_RECEIVE_MAXIMUM);
+                    cprops2.push(Prop::u16(P_RECEIVE_MAXIMUM, r2 as u16));
+                }
+                open(&mut sys, !expired, cprops2);
                 if !sys.dead {
-                    if let Some(a) = sys.ack_for(o, 0, "fresh") {
-                        sys.apply(Ev::Deliver(a));
-                    }
+                    sys.events.push("Run(resume)".into());
+                    sys.classes.push(format!("Resume(expired={})", expired));
+                    sys.m.resume(expired);
+                    sys.w.cmd(CtxCmd::Run);
+                    sys.sync();
                 }
-                sys.apply(Ev::Start(OpSpec::Ping));
-                sys.apply(Ev::Deliver(SPacket::Pingresp));
+                // the acknowledgements arrive on the new connection, in every order
+                for _ in 0..3 {
+                    if sys.dead {
+                        break;
+                    }
+                    // only the publish handshakes continue on the new connection
+                    let e: Vec<Ev> = (0..sys.m.ops.len())
+                        .filter(|&i| matches!(sys.m.ops[i].spec, OpSpec::Publish(_)))
+                        .filter_map(|i| sys.ack_for(i, 0, "").map(Ev::Deliver))
+                        .collect();
+                    if e.is_empty() {
+                        break;
+                    }
+                    // (twice: some handshakes are left unfinished when the connection is lost again)
+                    let i = chz.choose(e.len() + (rounds - 1));
+                    if i == e.len() {
+                        break;
+                    }
+                    sys.apply(e[i].clone());
+                }
+                // new traffic works (with a small Receive Maximum on the new connection the quota after a
+                // resume is outside C10 and C17: a QoS 0 publish then)
+                if !sys.dead {
+                    let q = if params["r2"].as_u64().is_some() { 0 } else { 1 };
+                    sys.apply(Ev::Start(OpSpec::Publish(PublishSpec::simple(q, "t/new", b"new"))));
+                }
+                // after an expired session nothing of the old one is left: a new ping is answered by the
+                // first PINGRESP of the new connection, a new subscribe by its SUBACK
+                if expired && params["fresh"].as_bool().unwrap_or(false) && !sys.dead {
+                    sys.apply(Ev::Start(OpSpec::Ping));
+                    sys.apply(Ev::Deliver(SPacket::Pingresp));
+                    sys.apply(Ev::Start(OpSpec::Subscribe(SubscribeSpec::simple("s/fresh"))));
+                    let o = sys.m.ops.len() - 1;
+                    if !sys.dead {
+                        if let Some(a) = sys.ack_for(o, 0, "fresh") {
+                            sys.apply(Ev::Deliver(a));
+                        }
+                    }
+                    sys.apply(Ev::Start(OpSpec::Ping));
+                    sys.apply(Ev::Deliver(SPacket::Pingresp));
+                }
             }
         }
         sys.finish();
